@@ -318,7 +318,10 @@ print("RESULT " + json.dumps(res))
 
 
 def run_engines(m, runs, cap):
-    d = _scratch(m)
+    try:
+        d = _scratch(m)
+    except RuntimeError as e:
+        return {"id": m["id"], "props": {"-": {"prop": "-", "status": "stale", "detail": str(e)}}}
     rec = {"id": m["id"], "props": {}}
     try:
         for prop in PROPS:
